@@ -157,7 +157,7 @@ func runC11(w *fw.Worker) {
 	noise := int64(0)
 	w.Cases(func(i int, r *fw.Rand) {
 		o := gen.GenOpts{MaxDepth: 3 - r.Intn(2), MaxFields: r.Range(2, 6), StructPct: r.Range(10, 45), TagPct: r.Range(0, 50), SkipPct: r.Range(0, 15),
-			Leaves: envLeaves(), InitialismPct: 25, SingleLetterPct: 4}
+			Leaves: envLeaves(), InitialismPct: 25, SingleLetterPct: 4, UnicodePct: 12}
 		spec := gen.RandomSpec(r, o)
 		leaves := spec.LeafRefs()
 		// dialsenv tags on some leaves (before the type is built)
